@@ -10,7 +10,9 @@ LEVEL_TEXT = ("Remux.tla states the property over token alphabets (H.264, H.265,
               "of units of <= 2 NALs, samples longer sequences, and compares the two layers; every sequence is concretized to bytes "
               "and pushed through the real updater+remuxer directly and through SubStream.WriteUnit with a reader; TLC evaluates "
               "the statement on the delivered units and the published description")
-LEVEL_NOTE = ("bounded: <= 3 units of <= 3 NALs, parameter values a/b; sequences of 3 units are sampled; byte patterns beyond the "
+LEVEL_NOTE = ("persistent always-available H.264/H.265 streams are taken through offline / publisher A / offline / publisher B "
+              "with every combination of description parameter sets (none/a/b) and a small repertoire of unit lists; "
+              "bounded: <= 3 units of <= 3 NALs, parameter values a/b; sequences of 3 units are sampled; byte patterns beyond the "
               "type bits (e.g. start-code emulation, malformed NALs) are out of scope; where the statement is silent (parameter "
               "sets after the key frame in the same unit, partially known parameters, order of the injected sets, MPEG-4 "
               "configurations in unusual places) every reading is accepted")
@@ -23,7 +25,23 @@ CONSTANTS
   MaxNALs265 = %(nals265)d
   EmitLen = %(emit)d
   DevH265UpdaterComparesStored = FALSE
+  DevOfflineRestartKeepsParams = FALSE
 INVARIANTS DesignAgrees EmitCases
+CHECK_DEADLOCK FALSE
+"""
+
+
+PCFG = """SPECIFICATION PSpec
+CONSTANTS
+  Codecs = {"h264", "h265"}
+  MaxAUs = 0
+  MaxNALs = 0
+  MaxNALs265 = 0
+  EmitLen = 99
+  DevH265UpdaterComparesStored = FALSE
+  DevOfflineRestartKeepsParams = %(dev)s
+  Repertoire = {%(rep)s}
+INVARIANTS PDesignAgrees%(emit)s
 CHECK_DEADLOCK FALSE
 """
 
@@ -88,7 +106,29 @@ def run(ctx):
             ctx, "Remux", name, workers=1, timeout=1200, simulate="num=%d" % num, depth=4,
             extra=["-seed", str(2200 + 1000 * int(ctx.seed) + i)], java_opts=["-Xmx6g"]))
         kinds.append(("sim", name))
+    # persistent (always-available) streams going through sub-stream phases: the code-shaped layer, and the named
+    # deviation DevOfflineRestartKeepsParams, which must disagree with the statement (model sanity, in the evidence)
+    reper = ctx.pick("1,2", "1,2,3,4")
+    pname = _cfg(ctx, "RemuxPhases_gen.cfg", PCFG % dict(dev="FALSE", rep=reper, emit=" PEmitCases"))
+    dname = _cfg(ctx, "RemuxPhases_dev.cfg", PCFG % dict(dev="TRUE", rep=reper, emit=""))
+    jobs.append(lambda: vf.tlc(ctx, "RemuxPhases", pname, workers=2, timeout=1200))
+    jobs.append(lambda: vf.tlc(ctx, "RemuxPhases", dname, workers=2, timeout=1200))
     res = _par(jobs) if not ctx.thorough else _par(jobs[:4]) + _par(jobs[4:])
+    pgen, pdev = res[-2], res[-1]
+    res = res[:-2]
+    pcases = [{"id": i, "codec": x["codec"], "phases": x["phases"]} for i, x in enumerate(pgen.tagged("PCASE"))]
+    if len(pcases) < 50:
+        raise vf.Infra("RemuxPhases.tla produced only %d phase cases" % len(pcases))
+    if not pdev.tagged("PDESIGN"):
+        raise vf.Infra("RemuxPhases.tla with DevOfflineRestartKeepsParams = TRUE agrees with the statement: "
+                       "the model cannot see stale parameter sets after an offline restart")
+    ctx.add("states", pgen.distinct)
+    ctx.add("transitions", pgen.generated)
+    ctx.cov.setdefault("mc_runs", []).append({"module": "RemuxPhases", "cfg": pname, "distinct": pgen.distinct,
+                                              "generated": pgen.generated, "depth": pgen.depth, "wall_s": round(pgen.wall, 2)})
+    ctx.set("phase_cases", len(pcases))
+    ctx.set("phase_layer_disagreements", len(pgen.tagged("PDESIGN")))
+    ctx.set("phase_layer_disagreements_with_deviation_DevOfflineRestartKeepsParams", len(pdev.tagged("PDESIGN")))
     phases["generate"] = round(time.time() - t0, 1)
     cases, seen, design = [], set(), set()
     for (kind, name), r in zip(kinds, res):
@@ -120,7 +160,13 @@ def run(ctx):
 
     cf = vf.write_ndjson(ctx.path("cases.ndjson"), cases)
     of = ctx.path("obs.ndjson")
-    vf.gotest_ok(ctx, "./internal/stream/", "^TestVerif_C22_Replay$", cases=cf, out=of, timeout=1200)
+    pcf = vf.write_ndjson(ctx.path("pcases.ndjson"), pcases)
+    pof = ctx.path("pobs.ndjson")
+    vf.gotest_ok(ctx, "./internal/stream/", "^TestVerif_C22_(Replay|Phases)$", cases=cf, out=of, timeout=1200,
+                 params={"PCASES": pcf, "POUT": pof})
+    precs = vf.read_ndjson(pof)
+    if len(precs) != len(pcases):
+        raise vf.Infra("phase harness produced %d records for %d cases" % (len(precs), len(pcases)))
     phases["replay"] = round(time.time() - t0, 1)
     recs = vf.read_ndjson(of)
     if len(recs) != 2 * len(cases):
@@ -163,11 +209,44 @@ def run(ctx):
                              if rec["codec"] != "mpeg4" else [x["t"] for x in rec["descs"][k - 1]["cfg"]]))
         drift[0] += len(r.tagged("DRIFT"))
 
-    for i in range(0, len(parts), 4):
-        _par([lambda j=j: tv(j) for j in range(i, min(i + 4, len(parts)))])
+    pdrift = [0]
+
+    def tvp():
+        vf.write_ndjson(d + "/C22_phases.ndjson", precs)
+        r = vf.tlc(ctx, "TraceRemuxPhases", "TraceRemuxPhases.cfg", workers=1, timeout=1800, java_opts=["-Xmx6g"])
+        for bad in r.tagged("BAD"):
+            rec = precs[bad["l"] - 1]
+            ph = rec["phases"][bad["phase"] - 1]
+            pattern = ("restarted-offline-sub-stream-after-publisher-with-other-parameter-sets"
+                       if bad["kind"] == "offline" and bad["phase"] > 1 else "other")
+            bypat[rec["codec"] + ":phases:" + pattern] = bypat.get(rec["codec"] + ":phases:" + pattern, 0) + 1
+            key = (rec["codec"], bad["clause"], pattern, bad["kind"], bad["prevpub"], str(ph["aus"]), bad["unit"])
+            if key in reported:
+                continue
+            reported.add(key)
+            shape = ["%s(%s)%s" % (p["kind"], p["desc"], "" if p["kind"] == "offline" else str(p["aus"])) for p in rec["phases"]]
+            o = rec["obs"][bad["phase"] - 1]
+            ctx.violation({"codec": rec["codec"], "via": "phases", "clause": bad["clause"], "pattern": pattern,
+                           "phase_kind": bad["kind"], "previous_publisher_description": bad["prevpub"],
+                           "unit": ph["aus"][bad["unit"] - 1] if bad["kind"] == "pub" and bad["unit"] else []},
+                          "always-available %s stream, sub-stream phases %s: in phase %d (%s) the %s is not what the statement "
+                          "requires (current parameters = those of the feeding sub stream's description, updated in-band): "
+                          "delivered %s, description reports %s"
+                          % (rec["codec"], shape, bad["phase"], bad["kind"], bad["clause"],
+                             [[x["t"] for x in u] for u in o["outs"]], {k: v for k, v in o["desc"].items() if k != "cfg"}))
+        pdrift[0] = len(r.tagged("DRIFT"))
+
+    tvjobs = [lambda j=j: tv(j) for j in range(len(parts))] + [tvp]
+    for i in range(0, len(tvjobs), 4):
+        _par(tvjobs[i:i + 4])
     phases["validate"] = round(time.time() - t0, 1)
     ctx.set("phase_end_s", phases)
-    ctx.set("traces_validated_against_impl", len(recs))
+    ctx.set("traces_validated_against_impl", len(recs) + len(precs))
+    ctx.set("phase_records_validated", len(precs))
+    ctx.set("phase_filler_units_observed", sum(len(o["outs"]) for r in precs for o, p in zip(r["obs"], r["phases"]) if p["kind"] == "offline"))
+    ctx.set("phase_drift_events", pdrift[0])
+    if pdrift[0]:
+        ctx.note("%d phase records of the real code differ from the code-shaped layer (DRIFT, not a verdict)" % pdrift[0])
     ctx.set("units_delivered", ndel)
     ctx.set("units_written", nun)
     ctx.set("drift_events", drift[0])
